@@ -1,7 +1,7 @@
 (* Extract/Main.v — one request per line in, one response per line out. *)
 From Coq Require Import List Arith NArith Ascii String Bool.
 From PV Require Import Base.Bytes Base.Sexp AVM.Syntax AVM.Ops AVM.Machine AVM.Parse
-  Comp.Assemble Comp.WideRatio Extract.Wire.
+  Comp.Assemble Comp.WideRatio Src.Expr Src.Denote Comp.Lower Comp.Compile Extract.Wire Extract.WireExpr.
 Import ListNotations.
 Local Open Scope string_scope.
 
@@ -59,6 +59,59 @@ Definition do_tokens (body : list sexp) : sexp :=
   | _ => err "tokens: expected a string"
   end.
 
+Definition do_compile (body : list sexp) : sexp :=
+  match body with
+  | [SList (Atom "opts" :: ob); pe] =>
+      match w_opts ob, w_prog pe with
+      | Some (inl o), Some p =>
+          match compile_model o gen_modes p with
+          | COk lines => SList (Atom "ok" :: map Str lines)
+          | CErr e => SList [Atom "err"; p_cerr e]
+          end
+      | Some (inr e), Some _ => SList [Atom "err"; p_cerr e]
+      | None, _ => err "compile: bad options"
+      | _, None => err "compile: unreadable program recipe"
+      end
+  | _ => err "compile: expected (opts ...) (prog ...)"
+  end.
+
+Definition p_dverdict (v : dverdict) : sexp :=
+  match v with
+  | DVApprove => Atom "approve"
+  | DVReject => Atom "reject"
+  | DVFail => Atom "fail"
+  | DVFuel => Atom "fuel"
+  | DVUnsup o => SList [Atom "unsup"; Str (opc_name o)]
+  end.
+
+(* (denote (ctx ...) (opts ...) (prog ...)) : evaluate the recipe directly.  Slots that the optimiser removed
+   have no number; they get fresh numbers above every assigned one (they are private cells). *)
+Definition do_denote (body : list sexp) : sexp :=
+  match body with
+  | [SList (Atom "ctx" :: cb); SList (Atom "opts" :: ob); pe] =>
+      match w_ctx cb, w_opts ob, w_prog pe with
+      | Some ri, Some (inl o), Some p =>
+          match model_assignment o p with
+          | CErr e => SList [Atom "err"; p_cerr e]
+          | COk asg =>
+              let look (u : N) : N :=
+                match find (fun x => N.eqb (fst x) u) asg with
+                | Some (_, n) => n
+                | None => (1000 + u)%N
+                end in
+              let env := mkEnv (ri_ctx ri) look (ri_msel ri) (p_subs p) false in
+              let '(v, st) := run_main env (ri_fuel ri) (p_main p) (ri_state ri) in
+              SList [Atom "ran"; p_dverdict v;
+                     SList [Atom "stack"];
+                     SList (Atom "trace" :: map p_event (rev (s_trace st)));
+                     SList [Atom "scratch"; p_scratch (s_scratch st)]]
+          end
+      | _, Some (inr e), _ => SList [Atom "err"; p_cerr e]
+      | _, _, _ => err "denote: unreadable request"
+      end
+  | _ => err "denote: expected (ctx ...) (opts ...) (prog ...)"
+  end.
+
 Definition dispatch (e : sexp) : sexp :=
   match e with
   | SList (Atom cmd :: body) =>
@@ -66,6 +119,8 @@ Definition dispatch (e : sexp) : sexp :=
       else if String.eqb cmd "wide-ops" then do_wide_ops body
       else if String.eqb cmd "wide-spec" then do_wide_spec body
       else if String.eqb cmd "tokens" then do_tokens body
+      else if String.eqb cmd "compile" then do_compile body
+      else if String.eqb cmd "denote" then do_denote body
       else err ("unknown command " ++ cmd)
   | _ => err "expected (command ...)"
   end.
